@@ -705,6 +705,71 @@ pub fn open_pos(sel: &[u8; 8], picks: &[(u8, u8, u8)], gold_to_move: bool) -> Po
     PosSpec { board: b, gold_to_move, move_number: move_number_from(sel[5]), notation: 0 }
 }
 
+/// "Push-only" positions: the mover's only legal actions are pushes by one officer P that has no free
+/// neighbour; P may stand next to a stronger enemy piece and be kept unfrozen by a rabbit only. Built on
+/// the a-file corner and mapped by file mirror / colour swap + rank flip. None if the kinds do not fit
+/// the complement.
+pub fn push_only_pos(sel: &[u8; 8], gold_to_move: bool) -> Option<PosSpec> {
+    // template for Gold to move; squares as indices (a8 = 0): a1 = 56, a2 = 48, a3 = 40, b1 = 57, b2 = 49, b3 = 41
+    let kp = 2 + sel[0] % 4; // C..M
+    let kx = 1 + sel[1] % (kp - 1); // R..kp-1
+    let mut b = Board::empty();
+    b.0[48] = m::mk(true, kp);
+    b.0[49] = m::mk(false, kx);
+    if sel[2] % 4 != 0 {
+        let ks = kp + 1 + sel[3] % (m::E - kp);
+        b.0[40] = m::mk(false, ks);
+    } else if sel[2] % 8 == 0 {
+        b.0[40] = m::mk(false, kp); // an equal piece: no threat, no step
+    } else {
+        b.0[40] = m::mk(true, m::R); // own rabbit in front: P is blocked by it
+    }
+    if sel[4] % 4 != 0 {
+        b.0[56] = m::mk(true, m::R);
+        b.0[57] = m::mk(false, 2 + sel[5] % 3); // C, D or H next to the rabbit: it cannot step sideways
+    } else {
+        b.0[56] = m::mk(false, kp.max(2)); // no friend at all: an equal enemy piece fills the square
+    }
+    if sel[6] % 3 == 0 {
+        b.0[41] = m::mk(false, 1 + sel[6] % 4); // b3 occupied: the pushed piece can only go to c2
+    }
+    // the sides' other rabbits, far away and unable to matter: a silver rabbit on h7, a gold one on h2 blocked?
+    b.0[15] = m::mk(false, m::R);
+    if b.count(m::mk(true, m::R)) == 0 {
+        // Gold needs a rabbit: on g1, walled in by silver cats/dogs so that it adds no step
+        b.0[62] = m::mk(true, m::R);
+        b.0[61] = m::mk(false, m::D);
+        b.0[63] = m::mk(false, m::D);
+        b.0[54] = m::mk(false, m::H);
+    }
+    if !b.within_complement() || !b.traps_legal() {
+        return None;
+    }
+    // symmetries
+    let mirror = sel[7] % 2 == 1;
+    let mut out = Board::empty();
+    for sq in 0..64u8 {
+        let c = b.at(sq);
+        if c == m::EMPTY {
+            continue;
+        }
+        let (mut r, mut f) = (sq / 8, sq % 8);
+        if mirror {
+            f = 7 - f;
+        }
+        let mut code = c;
+        if !gold_to_move {
+            r = 7 - r;
+            code = m::mk(!m::is_gold(c), m::kind(c));
+        }
+        out.0[(r * 8 + f) as usize] = code;
+    }
+    if !out.within_complement() || !out.traps_legal() {
+        return None;
+    }
+    Some(PosSpec { board: out, gold_to_move, move_number: move_number_from(sel[5] ^ sel[6]), notation: 0 })
+}
+
 pub fn open() -> impl Strategy<Value = PosSpec> {
     (any::<[u8; 8]>(), prop::collection::vec(pick(), 8..=12), any::<bool>()).prop_map(|(sel, picks, g)| open_pos(&sel, &picks, g))
 }
